@@ -218,14 +218,18 @@ impl Property for C11 {
         }
         ensure!(robot.kinematic_singularity(&c.j) == under.kinematic_singularity(&c.j), "singularity reports are those of the underlying stack", "differs at {:?}", c.j);
         ensure!(under.kinematic_singularity(&c.j) == stack.kinematic_singularity(&c.j), "the underlying stack is base -> robot(limits) -> tool", "singularity report differs from the hand-built stack at {:?}", c.j);
-        // positioned robot
+        // positioned robot (single precision: equal up to a few f32 rounding steps, e.g. a re-normalised quaternion)
+        let close32 = |a: &nalgebra::Isometry3<f32>, b: &nalgebra::Isometry3<f32>| {
+            let scale = 1.0 + b.translation.vector.norm();
+            (a.translation.vector - b.translation.vector).norm() <= 4e-6 * scale && a.rotation.angle_to(&b.rotation) <= 2e-3 && (a.rotation.coords - b.rotation.coords).norm().min((a.rotation.coords + b.rotation.coords).norm()) <= 4e-6
+        };
         let pr = robot.positioned_robot(&c.j);
         ensure!(pr.joints.len() == 6, "positioned_robot has six joints", "{}", pr.joints.len());
         for i in 0..6 {
-            ensure!(pr.joints[i].transform == l_s[i].cast::<f32>(), "body meshes are placed at the link poses of the underlying stack", "joint {}: {:?} vs {:?}", i + 1, pr.joints[i].transform, l_s[i].cast::<f32>());
+            ensure!(close32(&pr.joints[i].transform, &l_s[i].cast::<f32>()), "body meshes are placed at the link poses of the underlying stack", "joint {}: {:?} vs {:?}", i + 1, pr.joints[i].transform, l_s[i].cast::<f32>());
         }
         match &pr.tool {
-            Some(t) => ensure!(t.transform == l_s[5].cast::<f32>(), "the tool mesh is placed at the sixth link pose", "{:?}", t.transform),
+            Some(t) => ensure!(close32(&t.transform, &l_s[5].cast::<f32>()), "the tool mesh is placed at the sixth link pose", "{:?}", t.transform),
             None => return Err(viol!("the tool mesh is present", "none")),
         }
         ensure!(pr.environment.len() == c.scene.env.len(), "the environment list is complete", "{} vs {}", pr.environment.len(), c.scene.env.len());
